@@ -99,7 +99,7 @@ FRAME_KANI_CONTRACTS = [H('checksum_contract', covers=0), H('parse_hex_u8_contra
 FRAME_KANI_BOUNDED = [
     H('frame_capacity_asserts_len1', bounded='data length 1'),
     H('frame_capacity_asserts_len2', bounded='data length 2'), H('frame_capacity_asserts_len16', bounded='data length 16'),
-    H('chunks_map_collect_pipeline', bounded='0..=3 hex pairs', covers=2),
+    H('chunks_map_collect_pipeline', bounded='exactly 3 hex pairs', covers=1),
 ]
 
 PROPS['C01'] = {
